@@ -147,6 +147,8 @@ def replay(args):
                 cli.multiprocessing = _StopEarly(
                     real_mp, f"results_{str(st['task'] + 1).zfill(digits)}", st['stop'])
             raised = ''
+            os.makedirs(res, exist_ok=True)
+            before = read_files(res, ntasks, I)[0]
             try:
                 with contextlib.redirect_stdout(io.StringIO()):
                     cli.run_parallel.callback(
@@ -158,7 +160,7 @@ def replay(args):
                 cli.multiprocessing = real_mp
             os.makedirs(res, exist_ok=True)
             files, totals, extra = read_files(res, ntasks, I)
-            ev['obs'] = {'raised': raised, 'files': files, 'totals': totals,
+            ev['obs'] = {'raised': raised, 'files': files, 'totals': totals, 'before': before,
                          'analysis': read_analysis(res, I), 'extra_files': extra}
             steps.append(ev)
         return {'cfg': cfg, 'T0': beh['T0'], 'steps': steps}
